@@ -13,7 +13,6 @@ Per run:
   4. code -> spec: seeded random runs of the real objects are recorded and validated by TLC against
      Trace_ControlEvents.tla; binding self-test (corrupted field, dropped event, flipped expectation must be rejected).
 """
-import concurrent.futures as cf
 import copy
 import os
 import time
@@ -77,7 +76,6 @@ def graph_configs(quick):
             ("events-all", C(kinds=ALL_KINDS, ev=2, **both)),
             ("reconnect-2faults", C(hosts=(1, 2), kinds={"DOWN"}, ev=1, faults=2, beats=1)),
             ("reconnect-3hosts", C(kinds={"DOWN", "NEW"}, ev=1, faults=2, beats=1)),
-            ("ring-2faults", C(ring=1, faults=2, beats=1)),
         ]
     return out
 
@@ -88,9 +86,10 @@ def intended_only(quick):
     if quick:
         return [("ring-heartbeat", C(ring=1, faults=1, beats=1))]
     return [("events-3", C(kinds=ALL_KINDS, ev=3, **both)),
-            ("mixed", C(kinds={"DOWN", "UP", "NEW"}, ev=1, ring=1, faults=1, beats=1)),
-            ("ring-2", C(ring=2, faults=1, beats=1)),
-            ("shutdown", C(kinds={"DOWN", "REMOVED"}, ev=2, ring=1, faults=1))]
+            ("mixed", C(kinds={"DOWN", "NEW"}, ev=1, ring=1, faults=1)),
+            ("ring-2", C(ring=2, faults=1)),
+            ("reconnect-3faults", C(hosts=(1, 2), kinds={"DOWN"}, ev=1, faults=3, beats=1)),
+            ("ring-2faults", C(ring=1, faults=2, beats=1))]
 
 
 def expected_actions(c):
@@ -193,7 +192,63 @@ def run_probes():
     return present, detail
 
 
-# ---------------------------------------------------------------------- replay workers (forked; no threads alive then)
+# ---------------------------------------------------------------------- TLC runs as child processes
+def _job_main(kind, module, cfg, workdir, kw, outpath, dot, traces):
+    import pickle
+    try:
+        if kind == "trace":
+            res, prog = tlc.validate_traces(module, cfg, traces, workdir, **kw)
+            out = {"rc": res.rc, "out": res.out, "wall": res.wall, "progress": prog}
+        else:
+            res = tlc.run_tlc(module, cfg, workdir, dot=dot, **kw)
+            out = {"rc": res.rc, "out": res.out, "wall": res.wall}
+    except BaseException as ex:                  # MachineryError from validate_traces, anything else
+        out = {"error": "%s: %s" % (type(ex).__name__, ex)}
+    with open(outpath, "wb") as f:
+        pickle.dump(out, f)
+
+
+class Job:
+    """One TLC run driven by a forked child process: the parent stays single-threaded, so it can fork replay workers
+    while JVMs are still running.  kind: check (exhaustive), graph (+ state graph), trace (batched trace validation)."""
+
+    def __init__(self, kind, module, cfg, workdir, traces=None, **kw):
+        import multiprocessing
+        self.kind = kind
+        self.out = os.path.join(workdir, "result.pickle")
+        self.dot = os.path.join(workdir, "graph.dot") if kind == "graph" else None
+        self.proc = multiprocessing.get_context("fork").Process(
+            target=_job_main, args=(kind, module, cfg, workdir, kw, self.out, self.dot, traces))
+        self.proc.start()
+
+    def result(self):
+        import pickle
+        from harness import tlaval
+        self.proc.join()
+        try:
+            with open(self.out, "rb") as f:
+                r = pickle.load(f)
+        except OSError:
+            raise tlc.MachineryError("TLC job left no result (exit code %s)" % self.proc.exitcode)
+        if "error" in r:
+            raise tlc.MachineryError(r["error"])
+        res = tlc.TLCResult(r["rc"], r["out"], r["wall"])
+        if self.kind == "trace":
+            if r["progress"] is None and not res.violation:
+                raise tlc.MachineryError("trace validation produced no progress record: %s\n%s" % (res.error, res.out[-3000:]))
+            return res, r["progress"]
+        if not res.ok and not res.violation:
+            raise tlc.MachineryError("TLC failed: %s\n%s" % (res.error, res.out[-3000:]))
+        if self.kind == "graph":
+            if res.violation:
+                return res, {}, [], []
+            nodes, edges, init = tlaval.parse_dot(self.dot)
+            os.unlink(self.dot)
+            return res, nodes, edges, init
+        return res
+
+
+# ---------------------------------------------------------------------- replay workers (forked)
 _G = {}
 
 
@@ -297,14 +352,44 @@ def run(ctx):
     for dev in present:
         consts, acts, _ = probes()[dev]
         _viol(ctx, "%s: %s" % (dev, DEV_WHAT[dev]),
-              replay={"constants": _jc(dict(consts, Fixed=[])), "actions": acts, "observed": detail[dev]},
+              replay={"deviation": dev, "constants": _jc(dict(consts, Fixed=[])), "actions": acts, "observed": detail[dev]},
               signature="deviation:%s" % dev)
         ctx.nontrivial(("deviation", dev))
     fixed_built = set(ALL_DEV) - set(present)
     broken = set(i for d in present for i in DEV_BREAKS[d])
     built_inv = [i for i in INVARIANTS if i not in broken]
 
-    # ---- 4a. record random runs of the real objects (before any thread exists)
+    # ---- 2. TLC jobs, each driven by a child process: one JVM explores all replayed configurations (the specification's
+    # Scenarios), others the intended model, one validates the recorded runs
+    cfgs = graph_configs(quick)
+    name_of = {ce.scenario_tla(c): name for name, c in cfgs}
+    jobs = {}
+
+    def workdir(name):
+        d = os.path.join(ctx.scratch, name.replace(" ", "_"))
+        os.makedirs(d, exist_ok=True)
+        return d
+
+    batches = [("built", cfgs[:7])] + ([("built-large", cfgs[7:])] if cfgs[7:] else [])
+    for label, part in batches:
+        d = workdir(label)
+        mod, consts = ce.tla_constants([c for _, c in part], fixed_built, d)
+        p = tlc.write_cfg(os.path.join(d, "built.cfg"), constants=consts, invariants=built_inv, properties=PROPERTIES,
+                          constraints=["RecordWitnesses"], postcondition="PrintWitnesses", deadlock=False)
+        jobs[label] = Job("graph", mod, p, d, timeout=1500, workers=1)
+    intended = list(intended_only(quick))
+    if present:            # without deviations the as-built model is the intended one
+        intended = [(n, c) for n, c in cfgs if not quick or broken & set(_relevant_inv(n))] + intended
+    for k in range(0, len(intended), 4):
+        part = intended[k:k + 4]
+        label = "intended: " + ", ".join(n for n, _ in part)
+        d = workdir("intended_%d" % k)
+        mod, consts = ce.tla_constants([c for _, c in part], ALL_DEV, d)
+        p = tlc.write_cfg(os.path.join(d, "intended.cfg"), constants=consts, invariants=INVARIANTS, properties=PROPERTIES,
+                          deadlock=False)
+        jobs["intended", label] = Job("check", mod, p, d, timeout=2400, workers=4 if quick else 6)
+
+    # ---- 4a. meanwhile: record random runs of the real objects
     tconsts = dict(C(kinds=ALL_KINDS, targets=("ks", "ks.t", "ks.f(int)"), func=("ks.f(int)",), ev=4, ring=2, faults=3, beats=2),
                    Fixed=fixed_built)
     n_tr = 150 if quick else 2500
@@ -331,60 +416,40 @@ def run(ctx):
             if not any(x["k"] == "Refresh" for x in bad4[5]["post"]["sched"]) else [x for x in bad4[5]["post"]["sched"] if x["k"] != "Refresh"]
         selftest = [traces[victim][:8], bad1, bad2, bad3, bad4]
 
-    # ---- 2. TLC jobs: one JVM explores all replayed configurations (the specification's Scenarios), one the intended
-    # model, one validates the recorded runs (threads only wait for the JVMs; they are gone before the replay forks)
-    cfgs = graph_configs(quick)
-    name_of = {ce.scenario_tla(c): name for name, c in cfgs}
-    jobs = {}
-    pool = cf.ThreadPoolExecutor(max_workers=5)
-
-    def workdir(name):
-        d = os.path.join(ctx.scratch, name.replace(" ", "_"))
-        os.makedirs(d, exist_ok=True)
-        return d
-
-    batches = [("built", cfgs[:7])] + ([("built-large", cfgs[7:])] if cfgs[7:] else [])
-    for label, part in batches:
-        d = workdir(label)
-        mod, consts = ce.tla_constants([c for _, c in part], fixed_built, d)
-        p = tlc.write_cfg(os.path.join(d, "built.cfg"), constants=consts, invariants=built_inv, properties=PROPERTIES,
-                          constraints=["RecordWitnesses"], postcondition="PrintWitnesses", deadlock=False)
-        jobs[label] = pool.submit(tlc.state_graph, mod, p, d, timeout=1500, workers=1)
     d = workdir("trace")
     mod, consts = ce.tla_constants([tconsts], fixed_built, d, base="Trace_ControlEvents")
     tcfg = tlc.write_cfg(os.path.join(d, "trace.cfg"), init="TraceInit", next="TraceNext", constants=consts,
                          invariants=built_inv, constraints=["Progress"], postcondition="Done", deadlock=False)
-    jobs["trace"] = pool.submit(tlc.validate_traces, mod, tcfg, traces + selftest, d, timeout=2400)
-    intended = list(intended_only(quick))
-    if present:            # without deviations the as-built model is the intended one
-        intended = [(n, c) for n, c in cfgs if not quick or broken & set(_relevant_inv(n))] + intended
-    for k in range(0, len(intended), 4):
-        part = intended[k:k + 4]
-        label = "intended: " + ", ".join(n for n, _ in part)
-        d = workdir("intended_%d" % k)
-        mod, consts = ce.tla_constants([c for _, c in part], ALL_DEV, d)
-        p = tlc.write_cfg(os.path.join(d, "intended.cfg"), constants=consts, invariants=INVARIANTS, properties=PROPERTIES,
-                          deadlock=False)
-        jobs["intended", label] = pool.submit(tlc.check_model, mod, p, d, timeout=2400, workers=6 if quick else 8)
+    jobs["trace"] = Job("trace", mod, tcfg, d, traces=traces + selftest, timeout=2400)
 
     def spec_violation(res, label):
         tr = res.trace()
         _viol(ctx, "TLC: %s violated on ControlEvents.tla (%s)" % (res.invariant, label),
               replay={"trace": [dict(s.get("act", {})) for _, s in tr]}, signature="spec:%s" % res.invariant)
 
-    t0 = time.time()
-    graphs = []
+    # ---- 3. spec -> code: every edge of every as-built graph, each batch as soon as its JVM is done
     reached = set()
     actions_seen = set()
+    replayed = steps = diverged = 0
+    workers = replay_workers()
+    ctx.note("replay_worker_processes", workers)
+    timing["waiting_for_graphs_s"] = timing["replay_s"] = 0.0
+    order = {n: k for k, (n, _) in enumerate(cfgs)}
     for label, part in batches:
+        t0 = time.time()
         res, nodes, edges, init = jobs[label].result()
+        timing["waiting_for_graphs_s"] = round(timing["waiting_for_graphs_s"] + time.time() - t0, 2)
         ctx.add_tlc(res, "as-built (%s): %s" % (label, "; ".join("%s %s" % (n, _cs(c)) for n, c in part)))
         if res.violation:
             spec_violation(res, "as built, %s" % label)
             continue
+        t0 = time.time()
+        scen_of = {}
+        for nid, st in nodes.items():
+            scen_of[nid] = name_of.get(ce.scenario_tla(ce.consts_of(st["sc"])))
         by_name = {}
-        for st in nodes.values():
-            by_name.setdefault(name_of.get(ce.scenario_tla(ce.consts_of(st["sc"]))), []).append(st)
+        for nid, st in nodes.items():
+            by_name.setdefault(scen_of[nid], []).append(st)
         for n, c in part:
             taken = actions_in(by_name.get(n, ()))
             never = sorted(expected_actions(c) - taken)
@@ -393,40 +458,18 @@ def run(ctx):
             actions_seen |= taken
         if label == "built":
             reached |= witnesses_in(res, [], "ControlEvents")
-        graphs.append((label, nodes, edges, init, {n: len(v) for n, v in by_name.items()}))
-    for key, fut in list(jobs.items()):
-        if key[0] == "intended":
-            res = fut.result()
-            ctx.add_tlc(res, key[1])
-            if res.violation:
-                spec_violation(res, key[1])
-    tres, prog = jobs["trace"].result()
-    pool.shutdown(wait=True)
-    timing["tlc_s"] = round(time.time() - t0, 2)
-    missing = sorted(set(WITNESSES) - reached)
-    if missing and graphs and graphs[0][0] == "built":
-        raise tlc.MachineryError("vacuity witnesses not reached in any configuration: %s" % missing)
-    ctx.note("vacuity_witnesses_reached", sorted(reached & set(WITNESSES)))
-    ctx.note("coverage_actions_taken", sorted(actions_seen))
-    ctx.note("model", {"fixed_in_as_built_model": sorted(fixed_built), "invariants_checked_as_built": built_inv,
-                       "invariants_checked_intended": INVARIANTS, "action_properties": PROPERTIES})
-
-    # ---- 3. spec -> code: every edge of every as-built graph
-    t0 = time.time()
-    replayed = steps = diverged = 0
-    workers = replay_workers()
-    ctx.note("replay_worker_processes", workers)
-    deadline = ctx.t0 + (10 ** 9 if quick else 480.0)      # thorough: the largest graphs are replayed as far as time allows
-    order = {n: k for k, (n, _) in enumerate(cfgs)}
-    for label, nodes, edges, init, sizes in graphs:
-        def scen(nid):
-            return name_of.get(ce.scenario_tla(ce.consts_of(nodes[nid]["sc"])))
+            missing = sorted(set(WITNESSES) - reached)
+            if missing:
+                raise tlc.MachineryError("vacuity witnesses not reached in any configuration: %s" % missing)
+        # thorough: the largest graphs are replayed as far as the time budget allows
+        deadline = 10 ** 12 if quick else max(ctx.t0 + 420.0, time.time() + 150.0)
         walks = _covering_walks(edges, init)
-        walks.sort(key=lambda w: order.get(scen(w[0]), 99))          # stable: smallest configurations first
-        per = {n: {"states": sizes.get(n, 0), "edges": 0, "edges_replayed": 0, "walks": 0} for n, _ in cfgs if n in sizes}
+        walks.sort(key=lambda w: order.get(scen_of[w[0]], 99))          # stable: smallest configurations first
+        per = {n: {"states": len(by_name.get(n, ())), "edges": 0, "edges_replayed": 0, "walks": 0} for n, _ in part}
+        del by_name
         edge_scen = {}
         for s_, d_, _ in edges:
-            edge_scen[s_, d_] = scen(s_)
+            edge_scen[s_, d_] = scen_of[s_]
         for e, n in edge_scen.items():
             per[n]["edges"] += 1
         covered = set()
@@ -438,7 +481,7 @@ def run(ctx):
                 results.close()
                 break
             w = walks[i]
-            name = scen(w[0])
+            name = scen_of[w[0]]
             per[name]["walks"] += 1
             upto = len(w) - 1 if div is None else max(div["step"] - 1, 0)
             covered.update(zip(w[:upto], w[1:upto + 1]))
@@ -472,11 +515,26 @@ def run(ctx):
         if not set(edge_scen) <= covered and not diverged and not cut:
             raise tlc.MachineryError("replay of %s left %d edges uncovered without reporting a divergence"
                                      % (label, len(set(edge_scen) - covered)))
-        del nodes, edges, walks
-    timing["replay_s"] = round(time.time() - t0, 2)
+        del nodes, edges, walks, scen_of, edge_scen
+        timing["replay_s"] = round(timing["replay_s"] + time.time() - t0, 2)
     ctx.traces_validated += replayed
     ctx.note("behaviours_replayed", replayed)
     ctx.note("steps_replayed", steps)
+    ctx.note("vacuity_witnesses_reached", sorted(reached & set(WITNESSES)))
+    ctx.note("coverage_actions_taken", sorted(actions_seen))
+    ctx.note("model", {"fixed_in_as_built_model": sorted(fixed_built), "invariants_checked_as_built": built_inv,
+                       "invariants_checked_intended": INVARIANTS, "action_properties": PROPERTIES})
+
+    # ---- 2b. the intended model; the recorded runs
+    t0 = time.time()
+    for key, job in list(jobs.items()):
+        if key[0] == "intended":
+            res = job.result()
+            ctx.add_tlc(res, key[1])
+            if res.violation:
+                spec_violation(res, key[1])
+    tres, prog = jobs["trace"].result()
+    timing["waiting_for_other_tlc_s"] = round(time.time() - t0, 2)
 
     # ---- 4b. code -> spec
     ctx.add_tlc(tres, "trace validation %s" % _cs(tconsts))
@@ -523,7 +581,8 @@ def run(ctx):
         h.close()
     good_view = dict(p)
     n = 0
-    for k, v in (("sched", {}), ("known", (1,)), ("ctl", (2, "open")), ("phase", 1), ("watch", False)):
+    for k, v in (("sched", dict(list(p["sched"].items()) + [(ce.T("Bogus"), 1)])), ("known", tuple(p["known"]) + (9,)),
+                 ("ctl", (p["ctl"][0] + 1, p["ctl"][1])), ("phase", p["phase"] + 1), ("watch", not p["watch"])):
         n += bool(ce.diff(dict(good_view, **{k: v}), p))
     if n != 5 or ce.diff(good_view, p):
         raise tlc.MachineryError("binding self-test (replay direction) failed: %d of 5 flipped expectations noticed" % n)
@@ -568,7 +627,8 @@ def replay(ctx, obj):
         acts = acts + [obj["divergence"]["action"]]
     h = ce.EventsHarness(consts)
     try:
-        print("   ", _state_line(h.project()))
+        ps = [h.project()]
+        print("   ", _state_line(ps[0]))
         for a in acts:
             a = _fix_act(a)
             print("->", ce.short(a))
@@ -577,8 +637,12 @@ def replay(ctx, obj):
             except Exception as ex:
                 print("    cannot be performed: %s: %s" % (type(ex).__name__, ex))
                 break
+            ps.append(p)
             print("   ", _state_line(p))
         print("membership every node reports:", sorted(h.ring))
+        dev = obj.get("deviation")
+        if dev in ALL_DEV and len(ps) == len(acts) + 1 and probes()[dev][2](ps, None):
+            ctx.violation("replayed: %s: %s" % (dev, DEV_WHAT[dev]), replay=obj, signature="deviation:%s" % dev)
         if h.returned():
             print("after shutdown() returned:", h.after_return_probe() or "nothing left open, nothing ran, metadata unchanged")
     finally:
